@@ -61,7 +61,7 @@ theorem limits_respected (law : QueueLaw ops) (e : Env) (pool : List Tx) (fuel :
     ∧ Spec.sigOpCost e pool (candidate ops e pool fuel) ≤ MAX_BLOCK_SIGOPS_COST := by
   have h := runSelect_inv hp he law fuel (e := e)
   have hw : Spec.blockWeight e pool (candidate ops e pool fuel) ≤ (runSelect ops e pool fuel).blockWeight :=
-    spec_weight_le h
+    spec_weight_le h he.overhead
   have hs : Spec.sigOpCost e pool (candidate ops e pool fuel) = (runSelect ops e pool fuel).sigCost :=
     spec_sigs_eq h
   have hl := h.weightLim
@@ -251,7 +251,7 @@ def examplePool : List Tx :=
 example : PoolOk examplePool :=
   ⟨by decide, by decide, by decide, by decide, by decide⟩
 
-example : EnvOk f12aEnv := ⟨by decide, by decide, by decide, by decide⟩
+example : EnvOk f12aEnv := ⟨by decide, by decide, by decide, by decide, by decide⟩
 
 example : honestFeesB f12aEnv examplePool = true ∧ feesNotOverstatedB f12aEnv examplePool = true
     ∧ examplePool.all (seqLocksOk f12aEnv) = true ∧ f12aEnv.maxWeight ≤ MAX_BLOCK_WEIGHT := by decide
@@ -268,8 +268,7 @@ example : (candidate heapOps f12aEnv examplePool 8).sel = [0, 1] := by decide
 
 /-! ## Pinned constants (regenerated from the compiled tree on every run) -/
 
-theorem pin_minHighPriority : Generated.C12.minHighPriorityBits = MIN_HIGH_PRIORITY_BITS := by decide
-theorem pin_blockHeaderOverhead : Generated.C12.blockHeaderOverhead = BLOCK_HEADER_OVERHEAD := by decide
+/-- wire format: 80-byte block header, 9-byte maximal varint (the least a generator must reserve) -/
 theorem pin_headerOverhead_parts :
     Generated.C12.maxBlockHeaderPayload + Generated.C12.maxVarIntPayload = BLOCK_HEADER_OVERHEAD
     ∧ Generated.C12.maxVarIntPayload = MAX_VARINT_PAYLOAD := by decide
@@ -289,8 +288,5 @@ theorem pin_sequenceLock :
     ∧ Generated.C12.maxTxInSequenceNum = MAX_SEQUENCE := by decide
 theorem pin_lockTimeThreshold : Generated.C12.lockTimeThreshold = LOCKTIME_THRESHOLD := by decide
 theorem pin_baseSubsidy : Generated.C12.baseSubsidy = BASE_SUBSIDY := by decide
-theorem pin_unminedHeight : Generated.C12.unminedHeight = 2147483647 := by decide
-theorem pin_coinbaseFlags : Generated.C12.coinbaseFlags = "/P2SH/btcd/" := by decide
-theorem pin_regtestRelayNonStd : Generated.C12.regtestRelayNonStd = true := by decide
 
 end BV.C12
